@@ -1,12 +1,13 @@
-//@ unit xmlstring_tobin
+//@ unit xmlstring_tobin_big
 //@ props C09 C01
 //@ kind W
-//@ def quick NB=4
-//@ def thorough NB=7
-//@ cbmc quick --unwind 7 --unwinding-assertions
-//@ cbmc thorough --unwind 10 --unwinding-assertions
-//@ entry h_xmlstring_tobin
-//@ note W: complete for every NUL-terminated XMLCh string of length 1..NB (quick 4, thorough 7: which strings are numerals -- white space, signs, stray characters; the numerals beyond 32 bits are unit xmlstring_tobin_big) on the LP64 target model (long = 64 bits); loops fully unwound, unwinding assertions on
+//@ def quick NB=11
+//@ def thorough NB=12
+//@ cbmc quick --unwind 14 --unwinding-assertions
+//@ cbmc thorough --unwind 15 --unwinding-assertions
+//@ timeout quick=900
+//@ entry h_xmlstring_tobin_big
+//@ note W: complete for every numeral [+-]? digit{9,NB-1} / digit{9,NB} of 10..NB characters (quick NB = 11: everything around UINT_MAX / INT_MAX = 10 digits, and one order of magnitude beyond) on the LP64 target model; the full alphabet on short strings is unit xmlstring_tobin (long = 64 bits); loops fully unwound, unwinding assertions on
 //@ note obligation ("no overflow accepted silently"): textToBin returns true only for S* [+]? digits S* whose value fits unsigned int and then toFill is exactly that value; parseInt returns exactly the value of S* [+-]? digits S* when it fits int and throws NumberFormatException otherwise. These numerals are schema facet values (length, maxLength, totalDigits, maxOccurs ...).
 //@ note input alphabet = XML 1.0 Char (production [2]): the C library also skips #xB and #xC as white space, which no XML document can contain; with them textToBin("\\f12") is accepted -- API-only, recorded here, not an obligation
 //@ note models: strtoul / strtol per ISO C 7.20.1.4 (spec/libc_model.h), errno -> verif_errno, XMLString::transcode -> identity on ASCII and '?' for anything else (every local-code-page transcoder xerces supports maps ASCII to itself and no non-ASCII character to a digit, sign or space), XMLChar1_0::isWhitespace -> XML 1.0 production S, allocation = fresh object of exactly n bytes, memcpy of XMLCh elements = element loop; janitors dropped
@@ -71,15 +72,14 @@ sub strtol\(nptr, &endptr, 10\) => spec_strtol10(nptr, &endptr)
 
 struct { XMLCh a[NB + 1]; } IN;
 
-void h_xmlstring_tobin(void)
+void h_xmlstring_tobin_big(void)
 {
   XMLSize_t n;
   VERIF_INPUT(IN); VERIF_INPUT(n);
-  VERIF_ASSUME(n >= 1 && n <= NB);
+  VERIF_ASSUME(n >= 10 && n <= NB);
   XMLCh *s = IN.a + (NB - n);
   VERIF_ASSUME(s[n] == 0);
-  /* XML 1.0 production [2] Char: the only control characters a document can contain are #x9 #xA #xD */
-  for (XMLSize_t i = 0; i < n; i++) VERIF_ASSUME(s[i] >= 0x20 || s[i] == 0x9 || s[i] == 0xA || s[i] == 0xD);
+  for (XMLSize_t i = 0; i < n; i++) VERIF_ASSUME(SPEC_IS_DIGIT(s[i]) || (i == 0 && (s[i] == 0x2B || s[i] == 0x2D)));
   /* reference: S* sign? digits S*  (value with the same saturating positional evaluation the strtoul model uses) */
   XMLSize_t a = 0, b = n;
   while (a < b && SPEC_IS_XMLWS(s[a])) a++;
